@@ -14,3 +14,4 @@ CFG = dict(
                 "leftover-goroutine detection.",
      assumptions=["testing/synctest virtual time and Wait() are correct", "contexts are created with context.WithCancel"],
      timeout_quick=300, timeout_thorough=2400)
+CFG["rule"] += ' One case in four is a large pool (up to 40 initial members, 70 operations).'
